@@ -98,8 +98,9 @@ example : (objectFunc (some [some 1, none]) (some [some 5, some 2]) (some [none,
   norm_num [objectFunc, projectUpO, projectUp, upTakesFree, anyViolated, lowerViolated, upperViolated, oobReturnUpper, outOfBoundsVal]
 
 /-- the statement order the model assumes (fixed values folded in first, both bound loops before the model call, the model
-    called with the folded-in vector, NaN guard after the likelihood), the shape of `_object_func_log` and of the projection
-    loops, as found in the current source -/
+    called with the folded-in vector, NaN guard after the likelihood; the `func_kwargs` dict is COPIED before `pts` is written into it
+    and no caller-owned argument is written to, so nothing leaks from one call into the next through the shared mutable
+    defaults), the shape of `_object_func_log` and of the projection loops, as found in the current source -/
 theorem C12_source_shape :
     objectFuncShapeOk = true ∧ objectFuncLogShapeOk = true ∧ projectShapeOk = true ∧ optReexported = true := by decide
 
